@@ -7,6 +7,9 @@ package main
 import (
 	"fmt"
 	"reflect"
+	"strings"
+
+	"go.pennock.tech/tabular/properties/align"
 
 	"go.pennock.tech/tabular"
 	"go.pennock.tech/tabular/texttable"
@@ -248,6 +251,67 @@ func init() {
 						x.Fail("C09.error_means_no_text", tags, "%s of table %c returned error %q together with text; %s", tg.Name, "AB"[ti], r.Err, desc)
 						return
 					}
+				}
+			}
+		})
+	})
+}
+
+// family "alignment-x-sizes": every pool item (declared sizes that disagree with the text, multi-line, empty, nil)
+// alone in a column or under a wider/narrower neighbour, with every alignment on the column or as the default.
+func init() {
+	c09ExtraFamilies = append(c09ExtraFamilies, func(x *X) {
+		targets := allTargets()
+		var texts []Target
+		for _, tg := range targets {
+			if strings.HasPrefix(tg.Format, "text") || tg.Format == "markdown" {
+				texts = append(texts, tg)
+			}
+		}
+		aligns := []interface{}{align.Center, align.Right, align.Left}
+		x.Explore("alignment-x-sizes", ExploreOpts{ShardDepth: 2, Bound: fmt.Sprintf("%d pool items x {alone, under a 1-cell header, under a 12-cell header, next to a second column} x {centre, right, left} x {on the column, as column-0 default} x %d text/markdown targets", len(itemPool), len(texts))}, func(c *Chooser) {
+			it := itemPool[c.Choose(len(itemPool))]
+			shape := c.Choose(4)
+			al := aligns[c.Choose(len(aligns))]
+			onCol0 := c.Bool()
+			t := tabular.New()
+			switch shape {
+			case 1:
+				t.AddHeaders("h")
+			case 2:
+				t.AddHeaders("a-wide-header")
+			}
+			if shape == 3 {
+				t.AddRowItems(it.Make(), "second column")
+			} else {
+				t.AddRowItems(it.Make())
+			}
+			if onCol0 {
+				t.Column(0).SetProperty(align.PropertyType, al)
+			} else {
+				t.Column(1).SetProperty(align.PropertyType, al)
+			}
+			desc := fmt.Sprintf("item %s, shape %d, alignment %v on column %d", it.Name, shape, al, map[bool]int{true: 0, false: 1}[onCol0])
+			c.Logf("%s", desc)
+			x.Transition(1)
+			x.State(desc)
+			x.Nontrivial(desc)
+			for _, tg := range texts {
+				r := renderBoth(tg, t)
+				tags := append([]string{"alignment_x_sizes", "target:" + tg.Format, fmt.Sprintf("alignment:%v", al)}, it.Tags...)
+				x.Clause("C09.no_panic")
+				if r.Panicked || r.ToPanicked {
+					site, val := r.Site, r.PanicVal
+					if !r.Panicked {
+						site, val = r.ToSite, r.ToPanicVal
+					}
+					x.FailSite("C09.no_panic", tags, site, "%s panicked: %v (in %s); %s", tg.Name, val, site, desc)
+					return
+				}
+				x.Clause("C09.error_means_no_text")
+				if r.Err != nil && r.Out != "" {
+					x.Fail("C09.error_means_no_text", tags, "%s returned error %q together with text; %s", tg.Name, r.Err, desc)
+					return
 				}
 			}
 		})
